@@ -16,17 +16,18 @@ from concurrent.futures import ThreadPoolExecutor
 
 from lib import vlib
 
-PART_LINES = 6000        # trace lines per TLC run (runs go in parallel, one worker each)
+PART_LINES = 8000        # trace lines per TLC run (runs go in parallel, one worker each)
 REPLAY_LOCK = threading.Lock()   # Ctx.replay numbers its result files with a plain counter
 MAX_REJECTS = 3          # rejected sessions reported per part before giving up on it
 
-# binding self-test: byte-level deviations applied to a real recording -> reasons Trace_RtmpWriter may give
+# binding self-test: byte-level deviations applied to conformant bytes (written by the specification's own sender)
+# -> reasons Trace_RtmpWriter may give (None: any)
 DOCTORINGS = {
     "ext-timestamp-dropped": None,
-    "ext-timestamp-dropped-c3": None,
+    "ext-timestamp-dropped-c3": {"c3-ext-timestamp", "bytes-not-a-chunk"},
     "ext-timestamp-added": None,
-    "timestamp-little-endian": {"timestamp-field"},
-    "wrong-chunk-cut": {"chunk-size-not-in-force"},
+    "timestamp-little-endian": {"timestamp-field", "ext-timestamp-below-threshold", "header-type-not-allowed"},
+    "wrong-chunk-cut": None,
     "continuation-header-dropped": None,
     "stream-id-big-endian": {"stream-id-field"},
 }
@@ -50,7 +51,7 @@ def shape(m):
 def sessions_from_c01(path, tag, seen, out):
     """every endpoint of a RtmpSession behaviour is one writer session; identical write sequences once"""
     n = 0
-    for i, line in enumerate(open(path)):
+    for i, line in enumerate(sorted(open(path))):      # TLC's workers print in no particular order
         case = json.loads(line)
         for e in ("A", "B"):
             msgs = [s["m"] for s in case["steps"] if s["e"] == e]
@@ -74,7 +75,7 @@ def sessions_from_c01(path, tag, seen, out):
 
 
 def sessions_from_packets(path, rng, out):
-    pk = [json.loads(l)["p"] for l in open(path)]
+    pk = [json.loads(l)["p"] for l in sorted(open(path))]
     rng.shuffle(pk)
     ts_classes = [0, 1000, 16777214, 16777215, 16777216, 2147483647]
     n = 0
@@ -149,7 +150,7 @@ def run(ctx):
     sessions, seen, per_gen = [], set(), {}
     for g in gens:
         cp = os.path.join(ctx.out, "c01_%s.ndjson" % g)
-        ctx.tlc("rtmp", "MC_RtmpSession", g, cases_to=cp, timeout=1200)
+        ctx.tlc("rtmp", "MC_RtmpSession", g, cases_to=cp, timeout=1200, count_states=False)
         per_gen[g] = sessions_from_c01(cp, g.split(".")[0].replace("Gen_Session_", ""), seen, sessions)
     if t == "thorough":
         cp = os.path.join(ctx.out, "c01_sim.ndjson")
@@ -203,6 +204,8 @@ def run(ctx):
             info, rej = validate(ctx, "p%d_%d" % (pi, rounds), sub)
             if rej is None:
                 accepted += len(todo)
+                ctx.states += info["distinct"]          # states = trace records TLC took as steps
+                ctx.transitions += info["generated"]
                 break
             line, why, sname = rej
             off = 0
@@ -241,16 +244,52 @@ def run(ctx):
         ctx.notes["sessions_not_validated_after_rejections"] = unchecked
     ctx.notes["trace_parts"] = len(parts)
 
-    # ---------------------------------------------------------------- binding self-test + probes, in parallel
-    def selftest(name):
-        s = {"name": "doctored:" + name, "steps": [{"m": m} for m in SELFTEST_MSGS], "doctor": name}
-        _, l1 = record(ctx, "st_" + name, [s])
-        _, rej = validate(ctx, "st_" + name, l1, timeout=300)
+    # ---------------------------------------------------------------- loop model -> bytes -> tokenizer -> model, and binding self-test
+    # wires written by the specification's own sender (every header type and basic-header form; what C02 feeds the reader)
+    sw = os.path.join(ctx.out, "specwires.ndjson")
+    for g in ("Gen_Chunk_x03lib.cfg", "Gen_Chunk_x03ts.cfg"):
+        ctx.tlc("rtmp", "MC_RtmpChunk", g, cases_to=sw, timeout=600, count_states=False)
+    wires = [json.loads(l) for l in sorted(open(sw))]
+    for i, w in enumerate(wires):
+        w["name"] = "specwire#%d" % i
+
+    def specwire(name, cases):
+        cp = os.path.join(ctx.out, "specwire_%s.ndjson" % name)
+        with open(cp, "w") as f:
+            for c in cases:
+                f.write(json.dumps(c) + "\n")
+        d = os.path.join(ctx.out, "sw_" + name)
+        with REPLAY_LOCK:
+            res = ctx.replay("specwire", cp, dir=d, timeout=900)
+        return res, open(os.path.join(d, "trace.ndjson")).readlines()
+
+    sres, slines = specwire("plain", wires)
+    if not all(r["ok"] for r in sres):
+        raise vlib.Broken("specwire: a conformant wire could not be recorded")
+    dres, dlines = specwire("doctored", [dict(w, doctor=name, name="%s:%s" % (name, w["name"])) for name in sorted(DOCTORINGS) for w in wires])
+    doctored = {}
+    for k, r in enumerate(dres):
+        name = sorted(DOCTORINGS)[k // len(wires)]
+        if r["ok"] and len(doctored.setdefault(name, [])) < 2:
+            doctored[name].append(dlines[r["info"]["first"] - 1:r["info"]["last"]])
+    for name in DOCTORINGS:
+        if not doctored.get(name):
+            raise vlib.Broken("binding self-test: no conformant wire offers a chunk to apply %r to" % name)
+
+    def loop(_):
+        info, rej = validate(ctx, "specwires", slines)
+        if rej is not None:
+            raise vlib.Broken("the tokenizer + Trace_RtmpWriter reject a wire written by the specification's own sender: %r %s" % (rej, slines[rej[0] - 1]))
+        return info
+
+    def selftest(job):
+        name, j, l1 = job
+        _, rej = validate(ctx, "st_%s_%d" % (name, j), l1, timeout=300)
         if rej is None:
-            raise vlib.Broken("binding self-test: the recording doctored with %r was accepted by Trace_RtmpWriter" % name)
+            raise vlib.Broken("binding self-test: a conformant wire doctored with %r was accepted by Trace_RtmpWriter: %s" % (name, "".join(l1)))
         if DOCTORINGS[name] and rej[1] not in DOCTORINGS[name]:
             raise vlib.Broken("binding self-test: doctoring %r rejected for an unexpected reason %r" % (name, rej[1]))
-        return name, "rejected at record %d: %s" % (rej[0], rej[1])
+        return name, "record %d: %s" % (rej[0], rej[1])
 
     def probe(name):
         s = {"name": "probe:" + name, "steps": PROBES[name]}
@@ -263,10 +302,18 @@ def run(ctx):
         return name, {"accepted": False, "why": "X03/" + rej[1], "record": l1[rej[0] - 1].strip(), "messages": [x["m"] for x in PROBES[name]],
                       "trace": [x.strip() for x in l1]}
 
-    with ThreadPoolExecutor(max_workers=min(ctx.workers, 10)) as ex:
-        st = list(ex.map(selftest, sorted(DOCTORINGS)))
-        pr = list(ex.map(probe, sorted(PROBES)))
-    ctx.notes["binding_selftest"] = dict(st)
+    with ThreadPoolExecutor(max_workers=min(ctx.workers, 12)) as ex:
+        lp = ex.submit(loop, 0)
+        stf = [ex.submit(selftest, (name, j, l1)) for name in sorted(DOCTORINGS) for j, l1 in enumerate(doctored[name])]
+        prf = [ex.submit(probe, name) for name in sorted(PROBES)]
+        linfo = lp.result()
+        st = [f.result() for f in stf]
+        pr = [f.result() for f in prf]
+    ctx.notes["specwire_loop"] = {"wires_accepted": len(wires), "records": len(slines), "states": linfo["distinct"]}
+    sel = {}
+    for name, what in st:
+        sel.setdefault(name, []).append("rejected at " + what)
+    ctx.notes["binding_selftest"] = sel
     ctx.notes["observations"] = dict(pr)
     for name, o in pr:
         if not o["accepted"]:
